@@ -68,7 +68,7 @@ def run(ctx):
         # piggybacked response arrives and is processed completely (scheduling point: the map's hook between fetching an entry
         # and the callback): the answer came first - no copy any more
         if maxr >= 1:
-            for y in ("ack", "rst", "piggy"):
+            for y in ("ack", "rst", "piggy", "cancel"):
                 for pre in ([], [{"a": "tick", "t": 3}]):
                     t = 3 if not pre else 5
                     if len(pre) + 1 > maxr:
